@@ -460,7 +460,27 @@ pub fn c14_script(r: &mut Rng, _index: u64, _tier: Tier) -> (CaseCfg, Vec<Step>)
     let pid = *r.pick(&[1u16, 7, 255, 256, 65535]);
     let publish = |qos: u8, dup: bool| Step::Broker(BrokerAct::Send(SPacket::Publish { dup, qos, retain: false, topic: "m".into(), pid: Some(pid), props: vec![], payload: vec![9, 9] }));
     let mut s = vec![];
-    match r.below(10) {
+    match r.below(11) {
+        // a disconnect_with() is given up before (or after a few bytes of) its DISCONNECT went
+        // out and the handle is dropped; the next connection's CONNACK announces a Maximum Packet
+        // Size below that DISCONNECT: nothing of it may follow the session there
+        10 => {
+            let policy = IoPolicy { write: *r.pick(&[Chunk::All, Chunk::One]), pend_write: Pend::Always, ..IoPolicy::default() };
+            s.push(Step::Connect(ConnectSpec { policy, faults: vec![], connack: ConnackSpec::ok(SpMode::Force(false)), broker: BrokerPolicy { acks: AckMode::Hold, ping: AckMode::Immediate, fail_pct: 0, longform_pct: 0 }, cancel_at: None }));
+            if r.chance(1, 2) {
+                s.push(pubq(1, "m", 0x2D0, 1));
+            }
+            let props = if r.chance(2, 3) { Some(vec![Prop::ReasonString("parked and left behind".into())]) } else { None };
+            s.push(Step::Disconnect(DiscSpec { reason: Some(*r.pick(&[0u8, 4, 0x98])), props, cancel_at: Some(r.range(1, 3)) }));
+            s.push(match r.below(3) {
+                0 => Step::ForgetConn,
+                _ => Step::DropConn,
+            });
+            s.push(connect_with(if r.chance(3, 4) { SpMode::Force(true) } else { SpMode::Force(false) }, AckMode::Immediate, vec![Prop::MaximumPacketSize(*r.pick(&[2u32, 3, 8, 12, 20]))]));
+            s.push(poll0());
+            s.push(pubq(1, "m", 0x2D1, 0));
+            s.push(poll0());
+        }
         // the transport answers one write of a queued packet with Ok(0) (the call reports it, the
         // handle stays up); the limit of this connection's CONNACK goes on applying to whatever
         // the application asks for next on it
@@ -925,6 +945,40 @@ pub fn stalled_probe_script(r: &mut Rng, _index: u64, _tier: Tier) -> (CaseCfg, 
 /// and the transport answers the write that would complete the packet with Ok(0) or an error.
 pub fn c11_script(r: &mut Rng, _index: u64, _tier: Tier) -> (CaseCfg, Vec<Step>) {
     let cfg = CaseCfg { rx: 128, tx: 512, keepalive: 0, ..CaseCfg::default() };
+    // one case in five: a request is given up when its packet is written and only the flush is
+    // owed; the call that makes that flush - nothing else - gets a transport error: the handle is
+    // dead from there on
+    if r.chance(1, 5) {
+        let policy = IoPolicy { pend_flush: Pend::Always, ..IoPolicy::default() };
+        let mut s = vec![Step::Connect(ConnectSpec { policy, faults: vec![], connack: ConnackSpec::ok(SpMode::Force(false)), broker: BrokerPolicy { acks: AckMode::Hold, ping: AckMode::Immediate, fail_pct: 0, longform_pct: 0 }, cancel_at: None })];
+        let mut req = match r.below(4) {
+            0 => pubq(1, "flush/owed", 1, 3),
+            1 => pubq(2, "flush/owed", 2, 3),
+            2 => Step::Subscribe(SubSpec { filters: vec![FilterSpec { filter: "flush/#".into(), max_qos: 1, no_local: false, rap: false, rh: 0 }], props: vec![], cancel_at: None }),
+            _ => Step::Unsubscribe(UnsubSpec { filters: vec!["flush".into()], props: vec![], cancel_at: None }),
+        };
+        // its only await that pends is the flush
+        match &mut req {
+            Step::Publish(p) => p.cancel_at = Some(1),
+            Step::Subscribe(p) => p.cancel_at = Some(1),
+            Step::Unsubscribe(p) => p.cancel_at = Some(1),
+            _ => {}
+        }
+        s.push(req);
+        // connect() used the first flush of this connection; the next one is the owed one
+        s.push(Step::Io { policy: None, faults: vec![FaultPlan { at: FaultAt::Flush(1), kind: FaultKind::Error(*r.pick(&[ErrKind::BrokenPipe, ErrKind::ConnectionReset, ErrKind::TimedOut, ErrKind::Other])) }] });
+        s.push(match r.below(4) {
+            0 => Step::Drive { cancel_at: None },
+            1 => pubq(1, "flush/next", 3, 2),
+            2 => pubq(0, "flush/next0", 4, 2),
+            _ => poll0(),
+        });
+        s.push(poll0());
+        s.push(pubq(1, "after", 5, 2));
+        s.push(Step::Disconnect(DiscSpec { reason: None, props: None, cancel_at: None }));
+        s.push(Step::Drive { cancel_at: None });
+        return (cfg, s);
+    }
     // one case in four: the broker limits the packet size, a disconnect_with() whose DISCONNECT is
     // above the limit is refused locally (the connection stays up), a request or two later the
     // application calls disconnect(): that one fits, goes out, and the handle is dead for good
